@@ -11,7 +11,7 @@ import (
 
 func wkbGen(r *rand.Rand, n int, tier string, emit func(Case)) {
 	for i := 0; i < n; i++ {
-		tg := &treeGen{r: r, simple: i%3 == 2}
+		tg := &treeGen{r: r, simple: i%3 == 2, short: i%3 == 1}
 		kind := ""
 		if i < 28 {
 			kind = typeNames[i%7]
